@@ -99,8 +99,16 @@ macro_rules! impl_set {
                 fips204::$m::try_keygen_with_rng(rng)
             }
             fn keygen_os() -> Result<(Self::Pk, Self::Sk), &'static str> { fips204::$m::try_keygen() }
-            fn pk_bytes(pk: &Self::Pk) -> Vec<u8> { pk.clone().into_bytes().to_vec() }
-            fn sk_bytes(sk: &Self::Sk) -> Vec<u8> { sk.clone().into_bytes().to_vec() }
+            fn pk_bytes(pk: &Self::Pk) -> Vec<u8> {
+                let (a, b) = (pk.clone().into_bytes().to_vec(), via_trait_bytes(pk.clone()));
+                assert!(a == b, "VERIF: method-syntax and trait-dispatched into_bytes of a public key disagree");
+                a
+            }
+            fn sk_bytes(sk: &Self::Sk) -> Vec<u8> {
+                let (a, b) = (sk.clone().into_bytes().to_vec(), via_trait_bytes(sk.clone()));
+                assert!(a == b, "VERIF: method-syntax and trait-dispatched into_bytes of a private key disagree");
+                a
+            }
             fn pk_from(b: &[u8]) -> Result<Self::Pk, &'static str> {
                 let a: [u8; fips204::$m::PK_LEN] = b.try_into().map_err(|_| "length")?;
                 Self::Pk::try_from_bytes(a)
@@ -109,7 +117,11 @@ macro_rules! impl_set {
                 let a: [u8; fips204::$m::SK_LEN] = b.try_into().map_err(|_| "length")?;
                 Self::Sk::try_from_bytes(a)
             }
-            fn derive(sk: &Self::Sk) -> Self::Pk { sk.get_public_key() }
+            fn derive(sk: &Self::Sk) -> Self::Pk {
+                let (a, b) = (sk.get_public_key(), via_trait_derive(sk));
+                assert!(a.clone().into_bytes() == b.into_bytes(), "VERIF: method-syntax and trait-dispatched get_public_key disagree");
+                a
+            }
             fn sign(sk: &Self::Sk, rng: &mut impl CryptoRngCore, m: &[u8], ctx: &[u8], mode: &str) -> Result<Vec<u8>, &'static str> {
                 match ph_of(mode) {
                     None => sk.try_sign_with_rng(rng, m, ctx).map(|s| s.to_vec()),
@@ -124,10 +136,14 @@ macro_rules! impl_set {
             }
             fn verify(pk: &Self::Pk, m: &[u8], sig: &[u8], ctx: &[u8], mode: &str) -> bool {
                 let Ok(s): Result<[u8; fips204::$m::SIG_LEN], _> = sig.try_into() else { return false };
-                match ph_of(mode) {
-                    None => pk.verify(m, &s, ctx),
-                    Some(ph) => pk.hash_verify(m, &s, ctx, &ph),
-                }
+                // both ways a caller can reach the function: method syntax on the concrete type (an inherent method of the
+                // same name would win) and dispatch through the trait (generic code, trait objects).  They are one function.
+                let (a, b) = match ph_of(mode) {
+                    None => (pk.verify(m, &s, ctx), via_trait_verify(pk, m, &s, ctx, None)),
+                    Some(ph) => (pk.hash_verify(m, &s, ctx, &ph), via_trait_verify(pk, m, &s, ctx, Some(&ph))),
+                };
+                assert!(a == b, "VERIF: method-syntax call ({}) and trait-dispatched call ({}) of verify disagree", a, b);
+                a
             }
             fn internal_sign(sk: &Self::Sk, mp: &[u8], rnd: [u8; 32]) -> Vec<u8> {
                 fips204::$m::_internal_sign(sk, mp, &[], rnd).unwrap().to_vec()
@@ -209,6 +225,13 @@ macro_rules! impl_set {
 impl_set!(Set44, ml_dsa_44, 44, 4, 4, 2, 39, 1 << 17, (8_380_417 - 1) / 88, 80, 128);
 impl_set!(Set65, ml_dsa_65, 65, 6, 5, 4, 49, 1 << 19, (8_380_417 - 1) / 32, 55, 192);
 impl_set!(Set87, ml_dsa_87, 87, 8, 7, 2, 60, 1 << 19, (8_380_417 - 1) / 32, 75, 256);
+
+/// the same calls through the traits only (what generic code and trait objects execute)
+pub fn via_trait_verify<V: fips204::traits::Verifier>(v: &V, m: &[u8], s: &V::Signature, ctx: &[u8], ph: Option<&Ph>) -> bool {
+    match ph { None => fips204::traits::Verifier::verify(v, m, s, ctx), Some(ph) => fips204::traits::Verifier::hash_verify(v, m, s, ctx, ph) }
+}
+pub fn via_trait_bytes<K: fips204::traits::SerDes>(k: K) -> Vec<u8> where K::ByteArray: AsRef<[u8]> { fips204::traits::SerDes::into_bytes(k).as_ref().to_vec() }
+pub fn via_trait_derive<S: fips204::traits::Signer>(s: &S) -> S::PublicKey { fips204::traits::Signer::get_public_key(s) }
 
 /// run a generic function for one set number
 #[macro_export]
